@@ -60,8 +60,23 @@ check("C11", "model_checking",
       "Every table of family F4 (object ids sharing prefixes of 0/1/19 bytes so the abbreviation length varies, 1..160 refs, min update index 0 and 5) x {object index, SkipIndexObjects, position lists omitted because they did not fit} x block sizes x both hash sizes x every object id (present, absent, sharing the abbreviation) is queried with RefsFor; and every stack of <=3 tables over 3 names in which each name is absent / points at A / is deleted / points at B with peeled A, through the raw and the stack view. Results must equal the reference filter (live refs whose value or peeled value is the id, once each, name order, same fields as SeekRef).",
       E2_NOTE, "bounded-exhaustive enumeration of tables/stacks x object ids against the filter of a reference map", "DESIGN.md 6/C11", "codec")
 check("C14", "model_checking",
-      "Every table emitted in the C01 enumeration is decoded by model/fmtspec, an independent validator of the reftable format (header = footer prefix, CRC-32, section positions, block types/lengths/padding, restart tables pointing at full keys, strictly ascending keys, every index level covering all children with their last keys and positions, object-index positions equal to the ref blocks containing each id, update indices inside the header range), and the records it decodes must equal the records given to the writer. Each emitted file is one program validated against its source.",
+      "Every table emitted in the C01 enumeration, and every table file written by Add and by compaction in a stack-history search (internal/hist), is decoded by model/fmtspec, an independent validator of the reftable format (header = footer prefix, CRC-32, section positions, block types/lengths/padding, restart tables pointing at full keys, strictly ascending keys, every index level covering all children with their last keys and positions, object-index positions equal to the ref blocks containing each id, update indices inside the header range), and the records it decodes must equal the records given to the writer. Each emitted file is one program validated against its source.",
       E2_NOTE, "translation validation of every enumerated writer output by an independent format decoder", "DESIGN.md 5.2, 6/C14, Appendix A", "codec")
+
+SEQ_NOTE = ("Trusted: the in-memory directory model in atomic mode (one call runs to completion), model/refdb, model/fmtspec. "
+            "Bounds as stated per check; every node of the search is reached by replaying its shortest history from scratch on fresh real objects (no cloning).")
+check("C07", "model_checking",
+      "Explicit-state search over histories of one handle: alphabet {set, delete, symref, peeled tag on two refs, append log, delete newest log} interleaved with compaction of EVERY contiguous range of the current stack and CompactAll (quick: <=3 transactions and <=2 compactions, plus 4 transactions and 1 compaction, plus auto-compacting histories of 5 transactions; thorough: one more transaction and five write configurations). After every transaction the full scan through Stack.Merged() must equal the reference map; after every compaction it must be identical to the scan before; the compacted table must decode (independent decoder) to the newest-wins overlay of its inputs with ref tombstones dropped only if the range includes the oldest table.",
+      SEQ_NOTE, "explicit-state search (DFS with state dedup on table contents) over operation sequences of the real Stack against a reference map", "DESIGN.md 5.3, 6/C07", "seqbfs")
+check("C09", "model_checking",
+      "Explicit-state search over histories of 2-3 handles on one directory (auto-compacting and not; one family with handles of different hash types): alphabet per handle {Add, retry of a failed Add, NewAddition+Close, CompactAll, Clean}, depth 5 (thorough 6). With the reference notion of staleness (handle's table names != tables.list): a stale Add/NewAddition must return ErrLockFailure, a stale CompactAll must change nothing, a stale Clean must fail, the directory hash must be unchanged; after a failed Add UpToDate() holds, NextUpdateIndex() exceeds every committed index and the immediate retry succeeds; non-stale calls behave as the reference map says.",
+      SEQ_NOTE, "explicit-state search over multi-handle operation sequences of the real Stack with a reference staleness oracle", "DESIGN.md 5.3, 6/C09", "seqbfs")
+check("C12", "model_checking",
+      "Breadth-first search over all reachable (live set, tombstone set) states of a stack with name checking, over 6 well-formed names rich in prefix relations and 5 malformed ones: in EVERY state every transaction of <=2 records (add or delete; 242 transactions, thorough adds 3-record ones) is submitted through Add and through both two-table splits of an Addition, and CompactAll is applied; acceptance must equal the reference rule (accept iff every added name is well-formed and (live - deletions) + additions is conflict-free) and the live set read back must equal the model's and be conflict-free.",
+      SEQ_NOTE + " Two known findings (multi-table Additions are validated table by table against the committed view only) are listed in known_findings.json with class-specific signatures; any other disagreement is reported.", "breadth-first search over reachable name states x all small transactions on the real Stack against a reference rule", "DESIGN.md 6/C12", "seqbfs")
+check("C13", "model_checking",
+      "Every stack of <=3 tables whose tables hold, per ref, nothing / an entry at one of two times / a tombstone of the entry in the table below (quick: reduced options for the second ref), with refs present, x every expiry configuration from {Time: unset, below, equal to, between and above the data values} x {Min, Max update index: unset, 1..4}: CompactAll(cfg) on the real Stack must leave exactly the entries the reference rule keeps (drop iff time < Time or index outside [Min,Max]), every kept field identical, refs untouched, and a handle opened afterwards must see the same.",
+      SEQ_NOTE, "bounded-exhaustive enumeration of stacks x expiry configurations on the real Stack against the reference expiry rule", "DESIGN.md 6/C13", "seqbfs")
 
 ALL = [f"C{n:02d}" for n in range(1, 20)]
 NOT_YET = "check not built yet in this working session (design in DESIGN.md section 6); will be claimed once it runs"
@@ -81,6 +96,8 @@ manifest = {
          "kind_free_text": "engine E1: in-memory directory + cooperative scheduler owning every filesystem call + deviation-bounded stateless DFS with state cache over the real stack code"},
         {"name": "codec", "path": "harness/codec", "serves_properties": ["C01", "C02", "C03", "C11", "C14"],
          "kind_free_text": "engine E2: bounded-exhaustive enumeration of tables, stacks, lookup keys and configurations on the real writer/reader/merged view against reference models"},
+        {"name": "seqbfs", "path": "harness/seqbfs", "serves_properties": ["C07", "C09", "C12", "C13"],
+         "kind_free_text": "sequential-history engine: explicit-state search over operation sequences on real Stack handles in atomic mode against reference models (internal/hist is shared with C14)"},
         {"name": "crashseq", "path": "harness/crashseq", "serves_properties": ["C06"],
          "kind_free_text": "engine E1 in sequential mode: every filesystem-call boundary of a call is a crash point; survivor program on the real code"},
     ],
